@@ -251,6 +251,35 @@ func specialC10(seed int64, thorough bool, tmp string) *Special {
 	crossReads, sameBytes, refFails := 0, 0, 0
 	refErrs := map[string]int{}
 	seen := map[string]bool{}
+	crossRead := func(in c10Input, files map[string][]byte, tags []string) {
+		c := &Case{Tags: tags}
+		for _, w := range []string{"current", "reference"} {
+			f := files[w]
+			if f == nil {
+				continue
+			}
+			in.Writer = w
+			dc, errc := safeDump(Current, f)
+			dr, errr := safeDump(Reference, f)
+			crossReads++
+			switch {
+			case errr != nil && errc != nil:
+				refFails++ // both fail the same way: accepted (DESIGN.md C10)
+				refErrs[fmt.Sprintf("%s-written %v: ref: %.60v | cur: %.60v", w, c.Tags, errr, errc)]++
+			case errr != nil && errc == nil:
+				refFails++
+				refErrs[fmt.Sprintf("%s-written %v: ref: %.60v | cur ok", w, c.Tags, errr)]++
+				if w == "current" {
+					// the current writer emitted a file the pinned reader cannot read
+					sp.failf(in, "file of the current writer is not readable by the reference reader: %v", errr)
+				}
+			case errc != nil:
+				sp.failf(in, "current reader fails (%v) on a file the reference reader reads", errc)
+			case !eqW(dc, dr):
+				sp.failf(in, "the %s writer's file is read differently by the current reader and the reference reader (first difference at transcript index %d)", w, firstDiff(dc, dr))
+			}
+		}
+	}
 	for i := 0; i < n+nbig; i++ {
 		in := c10Input{Seed: seed, Index: i}
 		c := &Case{}
@@ -344,32 +373,7 @@ func specialC10(seed int64, thorough bool, tmp string) *Special {
 		if bytes.Equal(files["current"], files["reference"]) {
 			sameBytes++
 		}
-		for _, w := range []string{"current", "reference"} {
-			f := files[w]
-			if f == nil {
-				continue
-			}
-			in.Writer = w
-			dc, errc := safeDump(Current, f)
-			dr, errr := safeDump(Reference, f)
-			crossReads++
-			switch {
-			case errr != nil && errc != nil:
-				refFails++ // both fail the same way: accepted (DESIGN.md C10)
-				refErrs[fmt.Sprintf("%s-written %v: ref: %.60v | cur: %.60v", w, c.Tags, errr, errc)]++
-			case errr != nil && errc == nil:
-				refFails++
-				refErrs[fmt.Sprintf("%s-written %v: ref: %.60v | cur ok", w, c.Tags, errr)]++
-				if w == "current" {
-					// the current writer emitted a file the pinned reader cannot read
-					sp.failf(in, "file of the current writer is not readable by the reference reader: %v", errr)
-				}
-			case errc != nil:
-				sp.failf(in, "current reader fails (%v) on a file the reference reader reads", errc)
-			case !eqW(dc, dr):
-				sp.failf(in, "the %s writer's file is read differently by the current reader and the reference reader (first difference at transcript index %d)", w, firstDiff(dc, dr))
-			}
-		}
+		crossRead(in, files, c.Tags)
 		key := fmt.Sprint(in.Kind, in.CM, in.NDocs, c.Tags)
 		sp.Evaluations++
 		if !seen[key] {
@@ -386,6 +390,34 @@ func specialC10(seed int64, thorough bool, tmp string) *Special {
 			sp.Samples = append(sp.Samples, in)
 		}
 	}
+	// corner inputs, written by both writers (built, and merged with the documents that carry values
+	// deleted) and read by both readers: a stored value and a doc-value chunk above 1 MiB (zstd frames
+	// with a large window), doc-value fields whose first chunk is empty or that never have a term
+	for ci, corner := range c10Corners() {
+		in := c10Input{Seed: seed, Index: 100000 + ci, Kind: "corner:" + corner.name, CM: 1025, NDocs: []int{len(corner.b)}}
+		for step := 0; step < 2; step++ {
+			files := map[string][]byte{}
+			for _, impl := range []*Impl{Current, Reference} {
+				f, seg, err := buildBytes(impl, corner.b, 1025)
+				if err != nil {
+					sp.failf(in, "%s writer failed to build: %v", impl.Name, err)
+					continue
+				}
+				if step == 1 {
+					in.Kind = "corner-merge:" + corner.name
+					if f, _, err = mergeBytes(impl, []segment.Segment{seg}, []*roaring.Bitmap{bitmapOf(corner.drops)}, 1025); err != nil {
+						sp.failf(in, "%s writer failed to merge: %v", impl.Name, err)
+						continue
+					}
+				}
+				files[impl.Name] = f
+			}
+			crossRead(in, files, []string{"corner"})
+			sp.Evaluations++
+			sp.Distinct++
+			sp.Nontrivial++
+		}
+	}
 	if gd := os.Getenv("VERIF_GOLDEN_DIR"); gd != "" {
 		k := CheckGolden(gd, sp)
 		sp.Extra["golden_files_checked"] = k
@@ -396,6 +428,60 @@ func specialC10(seed int64, thorough bool, tmp string) *Special {
 	sp.Extra["files_the_reference_reader_cannot_load"] = refFails
 	sp.Extra["reference_reader_failures"] = refErrs
 	return sp
+}
+
+type c10Corner struct {
+	name  string
+	b     Batch
+	drops []uint64
+}
+
+func c10Corners() []c10Corner {
+	big := func(n int, seed byte) []byte {
+		v := make([]byte, n)
+		x := uint32(seed) + 1
+		for i := range v {
+			x = x*1664525 + 1013904223
+			v[i] = byte(x >> 24)
+			if v[i] == 0xff {
+				v[i] = 0
+			}
+		}
+		return v
+	}
+	var out []c10Corner
+	// one stored value above 1 MiB
+	out = append(out, c10Corner{"stored-value-1.1MiB", Batch{
+		{idField("a", true), Field{N: "body", St: true, Val: big(1150000, 1)}},
+		{idField("b", true), Field{N: "body", St: true, Val: []byte("small")}},
+	}, []uint64{1}})
+	// a doc-value chunk above 1 MiB
+	var dv Batch
+	for d := 0; d < 140; d++ {
+		dv = append(dv, Doc{idField(fmt.Sprintf("k%d", d), false), Field{N: "body", Len: 1, DV: true, Terms: []Term{{T: big(9000, byte(d)), Freq: 1}}}})
+	}
+	out = append(out, c10Corner{"dv-chunk-1.2MiB", dv, []uint64{3}})
+	// doc-value fields with an empty first chunk / without any term
+	var late Batch
+	var valued []uint64
+	for d := 0; d < 1130; d++ {
+		doc := Doc{idField(fmt.Sprintf("e%d", d), false)}
+		if d >= 1100 {
+			doc = append(doc, Field{N: "late", DV: true, Len: 1, Terms: []Term{{T: []byte(fmt.Sprintf("v%d", d%3)), Freq: 1}}})
+			valued = append(valued, uint64(d))
+		}
+		if d%9 == 0 {
+			doc = append(doc, Field{N: "none", DV: true, St: true, Val: []byte{byte(d)}})
+		}
+		late = append(late, doc)
+	}
+	out = append(out, c10Corner{"dv-empty-first-chunk", late, valued})
+	// a small batch whose doc-value field never has a term
+	out = append(out, c10Corner{"dv-field-without-terms", Batch{
+		{idField("a", true), Field{N: "none", DV: true, St: true, Val: []byte("x")}},
+		{idField("b", true), Field{N: "none", DV: true, St: true, Val: []byte("y")}},
+	}, []uint64{0}})
+	return out
 }
 
 func firstDiff(a, b W) int {
@@ -689,7 +775,7 @@ func specialC14(seed int64, thorough bool) *Special {
 	if thorough {
 		nt, conc, concRounds = 500, 16, 400
 	}
-	sp.Rule = fmt.Sprintf("%d targets: the bytes of Persist(New(batch)) from a cold builder pool (after two GCs) are compared with the bytes after 3 random build histories (bigger and smaller batches, other chunk modes, builds whose norm function panics half way); then %d goroutines build concurrently for %d rounds and compare with their cold bytes; non-trivial = the pool probe reported a recycled builder object right before the compared build", nt, conc, concRounds)
+	sp.Rule = fmt.Sprintf("%d targets: the bytes of Persist(New(batch)) from a cold builder pool (after two GCs) are compared with the bytes after 3 random build histories (bigger and smaller batches, other chunk modes, other norm functions, builds whose norm function panics half way); then %d goroutines build concurrently for %d rounds and compare with their cold bytes; non-trivial = the pool probe reported a recycled builder object right before the compared build", nt, conc, concRounds)
 	recycled, failedBuilds := 0, 0
 	for t := 0; t < nt; t++ {
 		nd := g.smallSize()
@@ -736,6 +822,16 @@ func specialC14(seed int64, thorough bool) *Special {
 						hist += fmt.Sprintf("fail(%d)", len(hb))
 						continue
 					}
+				} else if g.R.Intn(3) == 0 {
+					// a build with ANOTHER norm function (it depends on the field name and differs from
+					// HarnessNorm for every length): nothing of it may survive in the pooled builder
+					other := func(f string, l int) float32 { return HarnessNorm(f+"#", l+7) }
+					if err, pan := safeNew(hb, other, hcm); err != nil || pan != nil {
+						sp.failf(c14Input{Seed: seed, Target: t, History: hist + fmt.Sprintf("n(%d,%d)", len(hb), hcm), CM: hcm, NDocs: len(hb)},
+							"a build of a valid batch with another norm function failed after the history: err=%v panic=%v", err, pan)
+					}
+					hist += fmt.Sprintf("n(%d,%d)", len(hb), hcm)
+					continue
 				} else if err, pan := safeNew(hb, HarnessNorm, hcm); err != nil || pan != nil {
 					sp.failf(c14Input{Seed: seed, Target: t, History: hist + fmt.Sprintf("b(%d,%d)", len(hb), hcm), CM: hcm, NDocs: len(hb)},
 						"a build of a valid batch failed after the history (the same batch builds from a cold pool): err=%v panic=%v", err, pan)
@@ -864,7 +960,12 @@ func specialC15(seed int64, thorough bool, tmp string) *Special {
 		counts := []int{len(b0), int(s2.Count()), len(b0), len(b4)}
 		bms := []*roaring.Bitmap{bitmapOf(g.subset(len(b0), 2)), bitmapOf(g.subset(len(b0), 4)), roaring.New()}
 		bms[0].RunOptimize()
-		takeSeg := func(s segment.Segment) snap {
+		takeSeg := func(s segment.Segment) (sn snap) {
+			defer func() { // a segment that cannot be read any more is a changed segment
+				if r := recover(); r != nil {
+					sn = snap{W{999999, 999999}, nil}
+				}
+			}()
 			d := in.obsAll(s)
 			if fa, ok := s.(footerAPI); ok { // every public accessor is an observation (taken before persisting)
 				d = append(d, uint64(fa.CRC()), uint64(fa.ChunkMode()), uint64(fa.Version()), fa.NumDocs(),
@@ -906,7 +1007,7 @@ func specialC15(seed int64, thorough bool, tmp string) *Special {
 			si := g.R.Intn(len(segs))
 			seg := segs[si]
 			var what string
-			switch g.R.Intn(6) {
+			switch g.R.Intn(7) {
 			case 0: // iterate a postings list with an exclusion bitmap
 				ft := g.pickFT(fts)
 				what = "postings+except"
@@ -964,6 +1065,22 @@ func specialC15(seed int64, thorough bool, tmp string) *Special {
 					_, err := seg.DocsMatchingTerms(terms)
 					d, _ := seg.Dictionary("body")
 					dictEntries(d.Iterator(nil, nil, nil))
+					return err
+				})
+			case 5:
+				// a merge abandoned half way (the close channel closes, or the destination fails, after
+				// some bytes): the inputs must read as before
+				what = "merge(abandoned)"
+				nontriv = true
+				safely(func() error {
+					other := segs[g.R.Intn(len(segs))]
+					k := g.R.Intn(400)
+					if g.R.Intn(2) == 0 {
+						cw := &closeAt{k: k, ch: make(chan struct{})}
+						_, err := Current.Merger([]segment.Segment{seg, other}, []*roaring.Bitmap{bms[g.R.Intn(3)], nil}, 16).WriteTo(cw, cw.ch)
+						return err
+					}
+					_, err := Current.Merger([]segment.Segment{other, seg}, []*roaring.Bitmap{nil, bms[g.R.Intn(3)]}, 16).WriteTo(&failAt{k: k}, nil)
 					return err
 				})
 			default:
